@@ -1141,7 +1141,7 @@ func (img c08Image) materialise(src, dst string) error {
 // c08Torn derives the torn-write images between two consecutive step images: a file that kept
 // its inode and grew (or was created) was being appended to; the crash may have left any
 // prefix of the new bytes, optionally followed by garbage up to the new length.
-func c08Torn(prev, next c08Image) []c08Image {
+func c08Torn(prev, next c08Image, ambiguous *bool) []c08Image {
 	var out []c08Image
 	for _, nf := range next.Files {
 		if nf.Data == nil {
@@ -1166,6 +1166,11 @@ func c08Torn(prev, next c08Image) []c08Image {
 			for _, pf := range prev.Files {
 				if pf.Ino == nf.Ino {
 					renamed = true
+					if pf.Size != nf.Size && ambiguous != nil {
+						// renamed AND written between two step boundaries: the order of the two
+						// is not observable from the images, so no torn image is derived
+						*ambiguous = true
+					}
 				}
 			}
 			if renamed {
@@ -1352,7 +1357,12 @@ func c08CrashCase(r *vkit.Run, lim *c08Limiter, caseNo int, base string, ctr *ui
 		}
 		jobs = append(jobs, job{im, step})
 		if i+1 < len(images) {
-			for _, t := range c08Torn(im, images[i+1]) {
+			ambiguous := false
+			torn := c08Torn(im, images[i+1], &ambiguous)
+			if ambiguous {
+				r.Inconclusive("a file was renamed and written between two consecutive tombstone commit hook points; torn states of that step are not enumerated")
+			}
+			for _, t := range torn {
 				jobs = append(jobs, job{t, "in_flight"})
 				r.Event("torn_write_images", 1)
 			}
